@@ -316,7 +316,7 @@ def api_job(job):
         def image(a, k=k):
             m = mix(seed, k, a)
             return PALETTE[m % len(PALETTE)] if (m >> 8) % 4 else (m >> 12) & 0xFFFF
-        cfg = {"family": fam, "serial": serials[k % len(serials)], "rated_power": (10000, 15000, 29900)[k % 3], "battery_mode": 1, "refuse": [],
+        cfg = {"family": fam, "serial": serials[k % len(serials)], "rated_power": (10000, 15000, 29900, 30001, 50000, 65535, 0, 3000)[k % 8], "battery_mode": 1, "refuse": [],
                "tcp": bool(k & 1)}
         inv, sim = siminv.build_direct(cfg, default=image)
         if fam == "ES":
